@@ -44,6 +44,12 @@ NOTES = {
   "note": "Value constructors are parameters. Histories outside the property's quantifier (type conversion, plain Removed) are exercised but only compared with the model, not required to load.",
   "technique": "Lean 4 theorems (writer-side step invariance, extension relation, packed gate) + cross-module differential correspondence",
  },
+ "C17": {
+  "text": "Two halves. (a) Every `Introspect` impl in savefile/src/lib.rs is classified from the current source by the translator into a closed vocabulary (how children are served / how they are counted); a Lean theorem shows the decidable consistency criterion implies introspect_len = number of children fetchable by index for every value (compositionally over the type), `decide` checks the generated table against it, and the shape of the derive macro's generated code is pinned. A direct oracle walks generated values of every zoo type (plus hand-written Introspect impls, >10000-element containers) comparing introspect_len with the children fetched and probing beyond the first gap. (b) `Introspector::dive/do_introspect` and `IntrospectionResult::total_index` are modelled as Lean functions in which every unwrap, vector index and usize subtraction is an explicit panic outcome; theorems (mutual structural induction over the tree, loop invariant) show no panic site is reachable from any path state, any command, any limit, that results are well formed, and that total_index(i) is the i-th element of the depth-first enumeration and is Some exactly for i < total_len — for every command history. Random command histories (valid and invalid depths, keys, disambiguators, indices; limits 0,1,2,3,5,none) run through the real Introspector and the model and must agree frame by frame.",
+  "design_ref": "§6 C17",
+  "note": "The translator's classification of impl bodies is trusted (an unrecognised body is `unknown` and fails the table obligation; the direct oracle then looks for a failing value). RefCell/Mutex impls borrow/lock: re-entrancy while a guard is held elsewhere is outside the model. The path is private: the correspondence compares its length (num_frames) and all frames.",
+  "technique": "Lean 4 theorems (loop invariant + mutual induction: panic-freedom, flat index law; decidable table criterion proved sound) + translator-generated impl table + differential correspondence on navigation histories",
+ },
  "C05": {
   "text": "The schema tree, its on-disk formats, diff_schema and the file loader are modelled in Lean and tied to the code by decoding/diffing the implementation's own schema bytes for every zoo type, random schemas and mutations. Theorems: diff reports no difference exactly when two data schemas have the same shape (names and memory annotations erased, variant names kept) — by mutual induction over schema trees; the loader with the real schema codec yields a schema error exactly when shapes differ and otherwise reads the payload at the stored version; identical grammars read identical values; a wrong magic, newer library version or newer data version is rejected from the 16 header bytes alone. Ordered pairs of zoo types are saved as T and loaded as U against the model, which demands rejection whenever the two types do not describe the same bytes.",
   "design_ref": "§6 C05",
